@@ -341,6 +341,7 @@ func rulePosAdvance(p *Prog, r *Report) {
 			check(c.fn, declared, c.facs)
 		}
 	}
+	decodeSequence(p, r, rule)
 	r.Floor(rule, 6)
 }
 
@@ -1334,4 +1335,89 @@ func listVariablesByEvaluation(p *Prog, fn *ssa.Function) (detail string, decide
 		return fmt.Sprintf("a list of [child with variables a] x [child with variables b c] y lists %v, expected [a x b c y]: the names must come in the order of the positions they stand at", got), true, false
 	}
 	return "evaluated on a list of two children and two own variables: the names come in index order - a child's names where the child stands, an own variable's name at its own position", true, true
+}
+
+// decodeSequence: what the decoder reads for one item must not depend on the
+// items before it. The item decoder is evaluated on a list of three items
+// whose length fields have 2, 1 and 3 bytes (256 ASCII bytes, one U1, one
+// I2): each factory must be reached with its own element count, the list with
+// three elements, and the decoder must end at the end of the text.
+func decodeSequence(p *Prog, r *Report, rule string) {
+	key := rule + ":hsms.parseMessageText:sequence-of-items"
+	fn := p.Func("hsms", "(*parser).parseMessageText")
+	if fn == nil {
+		r.unk(rule, key, "", "(*parser).parseMessageText not found")
+		return
+	}
+	pos := p.Pos(fn.Pos())
+	const at = 16
+	bytesAt := map[int]int64{}
+	o := at
+	put := func(bs ...int64) {
+		for _, b := range bs {
+			bytesAt[o] = b
+			o++
+		}
+	}
+	put(0o00<<2|1, 3)       // L[3]
+	put(0o20<<2|2, 1, 0)    // A, 2 length bytes: 256
+	o += 256                // payload stays symbolic
+	put(0o51<<2|1, 1)       // U1, 1 length byte: 1
+	o += 1                  //
+	put(0o32<<2|3, 0, 0, 2) // I2, 3 length bytes: 2
+	o += 2
+	total := o
+	in := decoderInterp(p)
+	in.Symbolic = true
+	in.Recursion = 1 // the list's elements are decoded by a nested activation
+	in.InitBind["p0.pos"] = int64Val(at)
+	in.PathBind["p0.msgLength"] = int64Val(int64(total - 4))
+	in.PathBind["len(p0.input)"] = int64Val(int64(total))
+	for off, b := range bytesAt {
+		in.PathBind[fmt.Sprintf("p0.input[%d]", off)] = int64Val(b)
+	}
+	var seq []string
+	in.OnCall = func(call *ssa.Call, callee *ssa.Function, a []Val, fr *frame) {
+		if !isFactory(callee) || callee.Name() == "NewEmptyItemNode" {
+			return
+		}
+		n := "?"
+		if len(a) > 0 {
+			switch last := a[len(a)-1]; {
+			case last.K == KSlice && last.Len >= 0:
+				n = fmt.Sprint(last.Len)
+			case last.K == KSym:
+				n = last.S
+			}
+		}
+		seq = append(seq, callee.Name()+"/"+n)
+	}
+	out := in.Run(fn, defaultArgs(fn), nil)
+	if len(in.Stuck) > 0 {
+		r.unk(rule, key, pos, "evaluation stuck")
+		return
+	}
+	end := in.Load("p0.pos", types.Typ[types.Int])
+	success := false
+	for _, rv := range out.Frame.ReturnVals() {
+		if len(rv) == 2 && rv[1].K == KBool && rv[1].B {
+			success = true
+		}
+	}
+	want := []string{fmt.Sprintf("NewASCIINode/string(p0.input[%d:%d])", at+5, at+5+256), "NewUintNode/1", "NewIntNode/1", "NewListNode/3"}
+	var probs []string
+	if strings.Join(seq, " ") != strings.Join(want, " ") {
+		probs = append(probs, fmt.Sprintf("the items are built as %v, expected %v", seq, want))
+	}
+	if !success {
+		probs = append(probs, "the well-formed list is not accepted")
+	}
+	if !(end.K == KInt && end.I.Int64() == int64(total)) {
+		probs = append(probs, fmt.Sprintf("the decoder ends at %s, the text ends at %d", end, total))
+	}
+	if len(probs) > 0 {
+		r.bad(rule, key, pos, "a list of an A item with a 2-byte length (256), a U1 item with a 1-byte length and an I2 item with a 3-byte length: "+strings.Join(probs, "; ")+" - what is read for one item depends on the items before it")
+	} else {
+		r.ok(rule, key, pos, "evaluated on a list of three items whose length fields have 2, 1 and 3 bytes: every item is built with its own length, the list with three elements, and the decoder ends at the end of the text")
+	}
 }
